@@ -72,6 +72,8 @@ var cancelShapes = []shapeDef{
 	{name: "select_none_ready", body: "cha := Channel::[Int](0)\nchb := Channel::[Int](1)\nchb << 1\nselect\ncase v := <<cha\n  x = 1\ncase chb << 2\n  x = 2\nend\n"},
 	{name: "poppers_buffered", defs: "def popper(ch: Channel[Int], id: Int)\n  loop\n    v := try ch.pop\n  end\nend\n", body: "jobs := Channel::[Int](2)\ngo popper(jobs, 1)\ngo popper(jobs, 2)\ngo popper(jobs, 3)\nloop\n  jobs << x\n  x = x + 1\nend\n"},
 	{name: "poppers_result_buffered", defs: "def rpopper(ch: Channel[Int], id: Int)\n  loop\n    r := <<ch\n    break unless r.ok\n  end\nend\n", body: "rjobs := Channel::[Int](1)\ngo rpopper(rjobs, 1)\ngo rpopper(rjobs, 2)\nloop\n  rjobs << x\n  x = x + 1\n  sleep 1.millisecond if x % 7 == 0\nend\n"},
+	{name: "poppers_bursty", defs: "def bpopper(ch: Channel[Int], id: Int)\n  loop\n    v := try ch.pop\n  end\nend\n", body: "bjobs := Channel::[Int](2)\ngo bpopper(bjobs, 1)\ngo bpopper(bjobs, 2)\ngo bpopper(bjobs, 3)\nvar bi = 0\nloop\n  bjobs << x\n  bjobs << x + 1\n  x = x + 2\n  bi = 0\n  while bi < 400\n    bi = bi + 1\n  end\nend\n"},
+	{name: "rpoppers_bursty", defs: "def brpopper(ch: Channel[Int], id: Int)\n  loop\n    r := <<ch\n    break unless r.ok\n  end\nend\n", body: "brjobs := Channel::[Int](3)\ngo brpopper(brjobs, 1)\ngo brpopper(brjobs, 2)\ngo brpopper(brjobs, 3)\ngo brpopper(brjobs, 4)\nvar bri = 0\nloop\n  brjobs << x\n  brjobs << x + 1\n  x = x + 2\n  bri = 0\n  while bri < 900\n    bri = bri + 1\n  end\nend\n"},
 	{name: "pushers_buffered", defs: "def pusher(ch: Channel[Int], id: Int)\n  i := 0\n  loop\n    ch << id * 1000 + i\n    i = i + 1\n  end\nend\n", body: "pch := Channel::[Int](2)\ngo pusher(pch, 1)\ngo pusher(pch, 2)\nloop\n  x = x + (try pch.pop)\nend\n"},
 	{name: "await_in_async_loop", defs: "async def leaf(n: Int): Int\n  n + 1\nend\n", body: "loop\n  x = await leaf(x)\nend\n"},
 	// constructs with no context support (D4)
